@@ -65,6 +65,11 @@ CHECKS = {
    text="Generated-input search: 16 templates (failing memoized parsers next to alternatives, the same memoized parser retried at one position, nested / adjacent placements, inside repetitions, lookahead, with emissions, try_map, custom) x every string over {a,b,c} up to length 6 (quick) / 8 (thorough); 5 statically typed inline templates (3 aliasing probes, 2 controls) x all strings up to 4 / 6; 150k / 3M random C01/C02-class grammars (with recursion, validate in half) with memoized() at random nodes incl. directly nested; memo(g) and g must agree on has_output, output and every error. Left recursion: 4 grammars (direct with two memo placements, expr op expr, indirect) x all strings over {x,y,+,z} up to length 6 / 7 + 2k / 40k random ones up to length 200 in a child process (4 GiB address-space limit, 120 s watchdog): every parse and check must return and obey the ParseResult contract. Exploration within these bounds.",
    note="Trusted: nothing but the plain grammar as the model. `found` is not compared in grammars containing `not` (pinned, merge-order dependent). Known finding KF-a (memo key = position + parser address aliases for a wrapper and its first field and for distinct zero-sized parsers) is listed per static template in known_findings.json. F3 was found by this check and fixed in /repo (b359b1f).",
    design="DESIGN.md section 4, C11"),
+ "C12": dict(
+   technique="property-based differential testing of generated guarded-recursive grammars against a reference PEG evaluator, reference-free metamorphic comparison with the bounded unrolling (no Recursive in it), metamorphic build-style / handle variations (recursive(), declare/define, early clone with the declaring handle dropped, clone/boxed/Rc with the original dropped), a depth ladder in resource-limited child processes, and a small history test for define-twice",
+   text="Generated-input search: 7 recursive templates (paren / list / optional nests, right recursion, two mutually recursive definitions, recursion under lookahead and behind a partially matching alternative) x every string over {( ) x ,} up to length 5 (quick) / 7 (thorough) plus derived sentences nested to every depth 0..9 / 0..12 with one deletion or insertion at every position; 300k / 4M random grammars with 1..2 guarded recursive definitions; each compared with the reference (acceptance, output, extents), with its own unrolling to depth len+1, and across three build styles and dropped-original handles. Depth ladder: 5 parser shapes x parse / check / to_slice x depths 10..10^5 (quick) and 3*10^5, 10^6 (thorough), balanced and truncated, each in a child process that must exit normally with the right depth. define-twice: 6 histories. Exploration within these bounds.",
+   note="Trusted: reference PEG evaluator for part (1); unrolling and style comparisons need no reference. 'Any depth' is sampled on a ladder up to 10^6 (thorough), not shown for all depths. Exponentially backtracking cases (> 8000 reference evaluations) are skipped and counted.",
+   design="DESIGN.md section 4, C12"),
 }
 
 NOT_YET = {}
